@@ -31,9 +31,9 @@ type jrec struct {
 	end   int
 }
 
-func parseJournal(data []byte) ([]jrec, error) {
+func parseJournal(data []byte, strict bool) ([]jrec, error) {
 	var out []jrec
-	r := journal.NewReader(bytes.NewReader(data), nil, true, true)
+	r := journal.NewReader(bytes.NewReader(data), nil, strict, true)
 	for {
 		rd, err := r.Next()
 		if err == io.EOF {
@@ -44,6 +44,9 @@ func parseJournal(data []byte) ([]jrec, error) {
 		}
 		b, err := io.ReadAll(rd)
 		if err != nil {
+			if !strict {
+				continue
+			}
 			return out, err
 		}
 		if len(b) < 12 {
@@ -86,7 +89,8 @@ func c10Extra(w *harness.World, cr *concRun) {
 	sort.Slice(fds, func(i, j int) bool { return fds[i].Num < fds[j].Num })
 	var recs []jrec
 	for _, fd := range fds {
-		rs, err := parseJournal(w.Stor.Data(fd))
+		// with storage faults armed a record may legitimately be torn: read tolerantly
+		rs, err := parseJournal(w.Stor.Data(fd), !cr.Faulted)
 		if err != nil {
 			cr.Viol = append(cr.Viol, fmt.Sprintf("journal %v does not parse: %v", fd, err))
 			return
@@ -94,7 +98,7 @@ func c10Extra(w *harness.World, cr *concRun) {
 		recs = append(recs, rs...)
 	}
 	// sequence ranges contiguous and disjoint (within what is still on storage)
-	for i := 1; i < len(recs); i++ {
+	for i := 1; i < len(recs) && !cr.Faulted; i++ {
 		if recs[i].seq != recs[i-1].seq+uint64(recs[i-1].n) {
 			cr.Viol = append(cr.Viol, fmt.Sprintf("journal records not contiguous: record %d covers seq %d..%d, next starts at %d", i-1, recs[i-1].seq, recs[i-1].seq+uint64(recs[i-1].n)-1, recs[i].seq))
 			return
@@ -107,6 +111,39 @@ func c10Extra(w *harness.World, cr *concRun) {
 	for _, o := range w.Stor.Ops {
 		if o.Kind == vstor.KRemove && o.Fd.Type == storage.TypeJournal && o.Eff {
 			removed = true
+		}
+	}
+	// "every writer of the group receives the group's result": writes that share one journal
+	// record were one group, so their callers must all have been told the same thing
+	resOf := map[string]string{} // value -> "ok" | error text
+	for _, o := range cr.Hist {
+		in := o.Input.(linInput)
+		if in.Kind != "write" || o.ClientId == 99 {
+			continue
+		}
+		res := "ok"
+		if e := o.Output.(linOutput).Err; e != "" {
+			res = e
+		}
+		for _, b := range in.Batch {
+			if !b.Del {
+				resOf[b.V] = res
+			}
+		}
+	}
+	for _, r := range recs {
+		first, firstV := "", ""
+		for _, v := range r.vals {
+			res, ok := resOf[v]
+			if !ok {
+				continue
+			}
+			if first == "" {
+				first, firstV = res, v
+			} else if (res == "ok") != (first == "ok") {
+				cr.Viol = append(cr.Viol, fmt.Sprintf("writes %q and %q share one journal record (one group) but their callers received different results: %q vs %q", firstV, v, first, res))
+				return
+			}
 		}
 	}
 	groups := map[int]int{}
@@ -127,7 +164,7 @@ func c10Extra(w *harness.World, cr *concRun) {
 					}
 				}
 			}
-			if cnt > 1 || (cnt == 0 && !removed && !cr.TrVals[b.V]) {
+			if cnt > 1 || (cnt == 0 && !removed && !cr.TrVals[b.V] && !cr.Faulted) {
 				cr.Viol = append(cr.Viol, fmt.Sprintf("acknowledged write %q occurs %d times in the journal", b.V, cnt))
 				return
 			}
@@ -180,6 +217,12 @@ func c10Drivers() []concParams {
 		{Name: "compactrange-vs-writer", Cfg: "roomy/bytewise", Pre: []string{"put:a"}, Clients: [][]string{{"cr"}, {"put:b"}}, QB: 2, TB: 3, Expect: "noerr"},
 		{Name: "compactrange-vs-writer-flushy", Cfg: "flushy/bytewise", Pre: []string{"put:a"}, Clients: [][]string{{"cr"}, {"put:b"}}, QB: 2, TB: 3, Expect: "noerr"},
 		{Name: "writers-vs-readonly", Cfg: "roomy/bytewise", Clients: [][]string{{"put:a"}, {"put:b"}, {"ro"}}, QB: 3, TB: 4},
+		// a storage fault in the middle of the protocol: the group's journal write or sync fails,
+		// or the buffer rotation after a group that filled the buffer fails
+		{Name: "3-writers+journal-write-fault#1", Cfg: "roomy/bytewise", Clients: [][]string{{"put:a"}, {"put:b"}, {"put:a"}}, Faults: []faultSpec{{Kind: int(vstor.KWrite), Type: int(storage.TypeJournal), Nth: 1, Count: 1, Mode: int(vstor.ModeFail), Name: "write/journal#1"}}, QB: 2, TB: 3},
+		{Name: "3-writers+journal-write-fault#2", Cfg: "roomy/bytewise", Clients: [][]string{{"put:a"}, {"put:b"}, {"put:a"}}, Faults: []faultSpec{{Kind: int(vstor.KWrite), Type: int(storage.TypeJournal), Nth: 2, Count: 1, Mode: int(vstor.ModeFail), Name: "write/journal#2"}}, QB: 2, TB: 3},
+		{Name: "3-sync-writers+journal-sync-fault#1", Cfg: "roomy/bytewise", Clients: [][]string{{"Sput:a"}, {"Sput:b"}, {"put:a"}}, Faults: []faultSpec{{Kind: int(vstor.KSync), Type: int(storage.TypeJournal), Nth: 1, Count: 1, Mode: int(vstor.ModeFail), Name: "sync/journal#1"}}, QB: 2, TB: 3},
+		{Name: "merged-group-fills-buffer+journal-create-fault", Cfg: "wide/bytewise", Pre: []string{"putM:a", "putE:b"}, Clients: [][]string{{"put:a"}, {"put:b"}, {"put:a"}}, Faults: []faultSpec{{Kind: int(vstor.KCreate), Type: int(storage.TypeJournal), Nth: 1, Count: 1, Mode: int(vstor.ModeFail), Name: "create/journal#1"}}, QB: 2, TB: 3},
 		{Name: "4-writers", Cfg: "roomy/bytewise", Clients: [][]string{{"put:a"}, {"put:b"}, {"put:a"}, {"put:b"}}, QB: 2, TB: 3, Expect: "noerr"},
 	}
 }
